@@ -20,12 +20,13 @@ def run(rep, tier, seed):
     n = 2 if tier == "quick" else 3
     cases += loadcheck.explore(rep, "MC_C05", n, items="ReadMenu", label="MC_C05 rectangular arrays x readers A[k], N=%d" % n)
     cases += loadcheck.explore(rep, "MC_C05", 4, items="Redecl", label="MC_C05 an indexed array declared again with other contents/shape, reads before and after (4 items)")
+    cases += loadcheck.explore(rep, "MC_C05", 3, items="ParOnly", label="MC_C05 arrays made of template parameters only, some of them used earlier in the script; readers (3 items)")
     loadcheck.replay_cases(rep, cases, seed, sections=("ops", "vars", "params"), fingerprint=fingerprint, strict_cls=False)
     rep.cov["ragged_cases"] = sum(1 for c in cases if any(is_ragged(it) for it in c["s"]["body"]))
     rep.cov["param_element_cases"] = sum(1 for c in cases if any(has_bare_param(it) for it in c["s"]["body"]))
     rep.cov["rule"] = ("every array with 1..3 rows of 1..3 entries (all ragged combinations), dtype int/float/complex, elements encoding their "
                        "position, 5 bare-parameter patterns, shapes absent/right/wrong/1-d/3-d; scalars of every type; readers A[k], k in 0..8 "
-                       "(out of range = unspecified) and index arithmetic; compared: variables (kind, dtype, shape, every element), operation arguments")
+                       "(out of range = unspecified) and index arithmetic; arrays made of two distinct template parameters only, after earlier uses of those parameters; compared: variables (kind, dtype, shape, every element), operation arguments")
     rep.assumptions += ["out-of-range and negative indices, int x = 2.7, and truncating element conversions are outside the property (unspecified)"]
 
 
